@@ -553,5 +553,5 @@ def run(ctx):
         drive(RUNNERS, ctx, 'class', p)
         if rng.random() < 0.15:
             k2 = 'so' if rng.random() < 0.4 else 'se'
-            n = int(rng.integers(2, 5))
+            n = int(rng.integers(2, 8))
             drive(RUNNERS, ctx, 'class_multi', dict(dim=dim, kind=k2, which=['Exp', 'log'][rng.integers(2)], S=[algebra(rng, dim, k2) for _ in range(n)]))
